@@ -1,13 +1,14 @@
 """The recorded LR corpus (Parser build_tree=True next to GLRParser on the same input), judged by
 LRCheck.tla.  Shared by C04, C08, C10 and the LR half of C17."""
+import itertools
 import random
 
 from . import gen, pool, stage, tlcrun
 from .common import log, scratch, Timer
 
 PARAMS = {
-    "quick": dict(nfam=110, n=4, nrand=30, rand_len=6, nidiom=120, nrr=60, neps=80),
-    "thorough": dict(nfam=1200, n=5, nrand=600, rand_len=8, nidiom=None, nrr=600, neps=None),
+    "quick": dict(nfam=110, n=4, nrand=30, rand_len=6, nidiom=120, nrr=60, neps=80, nover=50),
+    "thorough": dict(nfam=1200, n=5, nrand=600, rand_len=8, nidiom=None, nrr=600, neps=None, nover=800),
 }
 COMBOS = [("LALR", False, False), ("LALR", True, True), ("LALR", False, True), ("SLR", False, False)]
 
@@ -73,6 +74,21 @@ def _jobs(tier, seed):
     for g in gen.epschain_family(limit=p["neps"], rng_seed=4772):
         words = gen.directed_inputs(g, rng, n_all=3 if len(g["terms"]) < 3 else 2, maxlen=5, n_sent=8, n_mut=3)
         jobs.append({"g": g, "inputs": sorted({"".join(w) for w in words}), "origin": "det", "consume": True})
+    # lexically overlapping terminals with layout between the tokens: every GLR tree must still be lossless (layout_content of each leaf;
+    # finding D13 / round-3 seeded change C14-f: the head cloned for a second lexical alternative forgot the skipped layout)
+    rng = random.Random(31343)
+    k = 0
+    while k < p["nover"]:
+        g = gen.random_grammar(rng, nts=("S", "A"), term_pool=gen.OVERLAP_TERMS, nterm=(2, 3), nprod=(2, 4))
+        if g is None:
+            continue
+        k += 1
+        words = ["".join(w) for n in range(1, 4) for w in itertools.product("ab", repeat=n)]
+        inputs = set(words)
+        for w in words:
+            inputs.add(" " + "  ".join(w))
+            inputs.add("\n".join(w) + " \n")
+        jobs.append({"g": g, "inputs": sorted(inputs), "origin": "det", "consume": True, "overlap": True})
     # reduce/reduce families (gen.rr_family): GLR heads in different states over the same input; all token strings <= 3 (sampled) + sentences
     rng = random.Random(31341)
     for g in gen.rr_family(p["nrr"]):
@@ -190,7 +206,7 @@ def worker(job):
             lr = _run_lr(real, parser, w) if parser else {"kind": "nobuild", "tree": NOTREE, "exc": NOEXC}
             out.append({
                 "name": "%s [%s,ps=%d,pse=%d%s%s] @ %r" % (gen.gname(g), tables, ps, pse, "" if consume else ",prefix", (",list-input" if job.get("list") else "") + (",LAYOUT-rule" if job.get("extra") else ""), w),
-                "listinput": bool(job.get("list")),
+                "listinput": bool(job.get("list")), "overlap": bool(job.get("overlap")),
                 "gtext": text, "tables": tables, "ps": ps, "pse": pse, "prio": False, "consume": consume, "origin": job["origin"],
                 "built": parser is not None, "build_err": err or "", "prods": prods, "terms": terms, "tbl": tbl,
                 "inputstr": wkey, "input": [ord(c) for c in wkey], "n": len(w), "skip": real.skip_table(w, ws), "match": real.match_table(grammar, w),
@@ -213,7 +229,7 @@ def judge(cases, tag="lr"):
         raise tlcrun.MachineryFailure("LRCheck: %d cases, %d verdicts" % (len(cases), len(v)))
     out = []
     for i, c in enumerate(cases):
-        out.append({"name": c["name"], "gtext": c["gtext"], "tables": c["tables"], "ps": c["ps"], "pse": c["pse"], "consume": c["consume"],
+        out.append({"name": c["name"], "gtext": c["gtext"], "tables": c["tables"], "ps": c["ps"], "pse": c["pse"], "consume": c["consume"], "overlap": c.get("overlap", False),
                     "origin": c["origin"], "input": c["inputstr"], "built": c["built"], "build_err": c["build_err"][:120],
                     "lr": {"kind": c["lr"]["kind"], "exc": c["lr"]["exc"]}, "glr": {"kind": c["glr"]["kind"], "n": c["glr"]["n"], "exc": c["glr"]["exc"]},
                     "clauses": sorted(v[i][2]), "flags": v[i][3]})
